@@ -5,7 +5,13 @@ and, in lockstep, against a reference FIFO (list of queued values + list of
 pending get ids).  Values are consecutive integers in put order.
 
 Operations (plain lists):
-  ["put"]                put the next integer
+  ["put"] / ["put", kind]  put the next object (numbered in put order).  kind (default: the
+                         case's "vk", default "int") says what sort of object carries the number:
+                         "int" | "deferred" (an unfired Deferred object, e.g. a job handle)
+                         | "fired" (an already fired Deferred) | "failure" (a Failure instance)
+                         | "exc" (an exception instance).  Objects are recognised by identity;
+                         "delivered" = the get's Deferred fires with that very object as its
+                         result (for a Failure object that is necessarily the errback side).
   ["get", mode]          mode "plain" | "rget" (its callback issues one more plain get,
                          re-entrantly: the consumer-loop idiom) | "rput" (its callback
                          puts the next integer re-entrantly)
@@ -31,6 +37,11 @@ META = dict(
 )
 
 GET_MODES = ("plain", "rget", "rput")
+VALUE_KINDS = ("int", "deferred", "fired", "failure", "exc")
+
+
+class QueuedFault(Exception):
+    """Payload of the "failure" / "exc" object kinds (never raised)."""
 MODE_CODE = {"plain": "p", "rget": "g", "rput": "u"}
 
 
@@ -106,9 +117,13 @@ class Model:
 # the real queue, observed from outside
 
 class World:
-    def __init__(self, size, backlog):
+    def __init__(self, size, backlog, vk="int"):
         from twisted.internet import defer
+        from twisted.python.failure import Failure
         self.defer = defer
+        self.Failure = Failure
+        self.vk = vk
+        self.objs = []
         self.q = defer.DeferredQueue(size, backlog)
         self.gets = []
         self.nextv = 0
@@ -116,11 +131,32 @@ class World:
         self.results = {}
         self.problems = []
 
-    def put(self):
+    def _make(self, kind, v):
+        if kind == "int":
+            return v
+        if kind == "deferred":
+            return self.defer.Deferred()
+        if kind == "fired":
+            return self.defer.succeed(("payload", v))
+        if kind == "failure":
+            return self.Failure(QueuedFault(v))
+        if kind == "exc":
+            return QueuedFault(v)
+        raise AssertionError(kind)
+
+    def _ident(self, obj):
+        for v, o in enumerate(self.objs):
+            if o is obj:
+                return v
+        return None
+
+    def put(self, kind=None):
         v = self.nextv
         self.nextv += 1
+        obj = self._make(kind or self.vk, v)
+        self.objs.append(obj)
         try:
-            self.q.put(v)
+            self.q.put(obj)
         except self.defer.QueueOverflow:
             self.events.append(("put", v, "overflow"))
             return
@@ -137,9 +173,14 @@ class World:
         self.events.append(("get", g, "created"))
         d.addCallbacks(self._value, self._failed, callbackArgs=(g, mode), errbackArgs=(g,))
 
-    def _value(self, v, g, mode):
+    def _value(self, obj, g, mode):
         if g in self.results:
             self.problems.append(("get-fired-twice", f"get {g}"))
+        v = self._ident(obj)
+        if v is None:
+            self.problems.append(("get-received-something-that-was-not-put",
+                                  f"get {g} fired with {obj!r}, which is none of the objects put"))
+            v = ("unknown", repr(obj)[:60])
         self.results[g] = ("ok", v)
         self.events.append(("deliver", g, v))
         if mode == "rget":
@@ -149,6 +190,9 @@ class World:
         return None
 
     def _failed(self, f, g):
+        if self._ident(f) is not None:
+            # a Failure instance that was put: the get fired with that very object
+            return self._value(f, g, self.gets[g]["mode"])
         if g in self.results:
             self.problems.append(("get-fired-twice", f"get {g}"))
         self.results[g] = ("fail", f.type.__name__)
@@ -223,7 +267,8 @@ def _resolve(m, op):
 
 def execute(ctx, case):
     size, backlog = case["size"], case["backlog"]
-    w = World(size, backlog)
+    vk = case.get("vk", "int")
+    w = World(size, backlog, vk)
     m = Model(size, backlog)
     resolved = []
     flags = set()
@@ -252,11 +297,19 @@ def execute(ctx, case):
                     flags.add("put fills the queue exactly")
                 if cancelled_pending:
                     flags.add("NT")
+            kind = op[1] if len(op) > 1 else vk
+            if kind != "int":
+                flags.add(f"object kind {kind}: " + ("handed to a pending get" if m.waiting else
+                                                     "refused (overflow)" if m.size is not None and len(m.pending) >= m.size
+                                                     else "queued"))
             m.put()
-            w.put()
+            w.put(kind)
         elif name == "get":
             if m.pending:
                 flags.add("get served from queue")
+                k0 = w.objs[m.pending[0]]
+                if not isinstance(k0, int):
+                    flags.add("get dequeues a non-int object (" + ("Deferred" if isinstance(k0, w.defer.Deferred) else type(k0).__name__) + ")")
             elif m.backlog is not None and len(m.waiting) >= m.backlog:
                 flags.add("get underflow")
             else:
@@ -313,9 +366,9 @@ def run_case(ctx, case):
             ctx.count(f)
     if "NT" in flags:
         ctx.count("nontrivial (cancel of a pending get, then a put)")
-        ctx.nontrivial((case["size"], case["backlog"], resolved))
+        ctx.nontrivial((case["size"], case["backlog"], case.get("vk", "int"), resolved))
         if len(resolved) <= 10:
-            ctx.sample(dict(size=case["size"], backlog=case["backlog"], ops=resolved))
+            ctx.sample(dict(size=case["size"], backlog=case["backlog"], vk=case.get("vk", "int"), ops=resolved))
     return key, enabled
 
 
@@ -362,12 +415,12 @@ def _bfs(ctx, arg):
     ctx.extra[f"transitions size={size} backlog={backlog} depth={depth}"] = transitions
 
 
-def _leaves(size, backlog, depth):
+def _leaves(size, backlog, depth, vk="int"):
     """Every history of exactly `depth` enabled operations (no state merging);
     enabled operations come from the model alone."""
     def rec(ops):
         if len(ops) == depth:
-            yield dict(size=size, backlog=backlog, ops=[list(o) for o in ops])
+            yield dict(size=size, backlog=backlog, vk=vk, ops=[list(o) for o in ops])
             return
         m = Model(size, backlog)
         for o in ops:
@@ -383,9 +436,9 @@ def _leaves(size, backlog, depth):
 
 
 def _full(ctx, arg):
-    size, backlog, depth = arg
+    size, backlog, depth, vk = arg
     n0 = ctx.evaluations
-    enumerate_run(ctx, _leaves(size, backlog, depth), run_case)
+    enumerate_run(ctx, _leaves(size, backlog, depth, vk), run_case)
     ctx.count("complete enumeration: histories", ctx.evaluations - n0)
 
 
@@ -401,12 +454,14 @@ def _history_strategy(max_ops):
     op = st.one_of(
         st.just(["put"]),
         st.just(["put"]),
+        st.tuples(st.just("put"), st.sampled_from(VALUE_KINDS)).map(list),
         st.tuples(st.just("get"), st.sampled_from(GET_MODES)).map(list),
         st.just(["get", "plain"]),
         st.tuples(st.just("cancel*"), st.sampled_from(["pending", "pending", "any"]), idx).map(list),
     )
     lim = st.sampled_from([None, 0, 1, 2, 3, 5])
-    return st.builds(dict, size=lim, backlog=lim, ops=st.lists(op, min_size=1, max_size=max_ops))
+    return st.builds(dict, size=lim, backlog=lim, vk=st.sampled_from(VALUE_KINDS + ("int", "int")),
+                     ops=st.lists(op, min_size=1, max_size=max_ops))
 
 
 def _random_shard(sub, i):
@@ -417,13 +472,16 @@ def run(ctx):
     lims = [None, 0, 1, 2]
     # (1) complete enumeration, no state merging: every history of exactly D enabled ops
     full_depth = ctx.pick(5, 6)
-    full = [(s, b, full_depth) for s in lims for b in lims]
+    full = [(s, b, full_depth, "int") for s in lims for b in lims]
+    # the same, one operation shorter, for every other kind of queued object
+    full += [(s, b, full_depth - 1, vk) for vk in VALUE_KINDS[1:] for s in lims for b in lims]
     # (2) breadth-first with state hashing, deeper
     depth_unbounded = ctx.pick(6, 9)    # backlog None: waiting list grows, 3^k kinds
     depth_bounded = ctx.pick(10, 14)     # bounded backlog: small state space
     configs = [(s, b, depth_unbounded if b is None else depth_bounded) for s in lims for b in lims]
     ctx.extra["exhaustive_scopes"] = dict(
-        complete_histories=dict(limits="size, backlog in {None,0,1,2}", length=full_depth),
+        complete_histories=dict(limits="size, backlog in {None,0,1,2}", length=full_depth,
+                                other_object_kinds=dict(kinds=list(VALUE_KINDS[1:]), length=full_depth - 1)),
         hashed_bfs=[dict(size=s, backlog=b, depth=d) for s, b, d in configs])
     if ctx.thorough:
         jobs = [("bfs", c) for c in configs] + [("full", c) for c in full]
